@@ -76,7 +76,7 @@ def correspond(ctx, nhist=None, variants=("default",), hi_frac=(70, 20, 8, 2), u
                 samples.append({"binding": b, "history": ["%s -> %s" % (o, r) for o, r, _ in ex[:12]]})
     return {"evaluations": evaluations, "distinct_nontrivial": len(sigs),
             "rule": "random histories over {next, prev, next/prev-to-buffer-edge, jump_to, skipto (C), clear, move round trip/self move (C++), moved-from, re-construct} from one splitmix64 stream; a case is counted once per distinct (binding, set of transition kinds: direction switches in/at the edge of a buffer, error, zero sentinel, resets)",
-            "samples": samples, "mismatches": mismatches[:20], "distribution": dist, "variants": list(variants)}
+            "samples": samples, "mismatches": sorted(mismatches, key=lambda m: 0 if m.get("failing_input") else 1)[:20], "distribution": dist, "variants": list(variants)}
 
 
 def search(ctx, broken):
